@@ -78,6 +78,9 @@ def keyed_attributes(chk, cases, bad, extra):
             ("with_item(dup, _index)", lambda: h.with_item(dup, _index=idx, _inplace=inplace)),
             ("with_item(new, _index)", lambda: h.with_item(new, _index=idx, _inplace=inplace)),
             ("with_item(new, _index, _insert)", lambda: h.with_item(new, _index=idx, _insert=True, _inplace=inplace)),
+            ("with_item(new, _index=<key>, _insert)", lambda: h.with_item(new, _index=rng.choice(ks), _insert=True, _inplace=inplace)),
+            ("with_item(new, _index=<key>)", lambda: h.with_item(new, _index=rng.choice(ks), _inplace=inplace)),
+            ("with_item(new, _index=None, _insert)", lambda: h.with_item(new, _index=None, _insert=True, _inplace=inplace)),
             ("with_item(key)", lambda: h.with_item(rng.choice(keys), _inplace=inplace)),
             ("with_item(ill-typed)", lambda: h.with_item(3, _inplace=inplace)),
             ("update_item(idx, dup)", lambda: h.update_item(idx, dup, _by_index=True, _inplace=inplace)),
